@@ -34,6 +34,7 @@ type Universe struct {
 	SSAPkgs map[string]*ssa.Package
 	cg      *callgraph.Graph
 	repo    string
+	callers map[*ssa.Function][]ssa.CallInstruction
 }
 
 func loadUniverse(repo string, name string, rel []string, goos string) (*Universe, error) {
@@ -330,4 +331,30 @@ func recvNamed(t types.Type) string {
 		return n.Obj().Name()
 	}
 	return t.String()
+}
+
+// staticCallers lists the static call sites (call, go, defer) of fn in the module's source functions
+func (u *Universe) staticCallers(fn *ssa.Function) []ssa.CallInstruction {
+	if u.callers == nil {
+		u.callers = map[*ssa.Function][]ssa.CallInstruction{}
+		var rels []string
+		for rel := range u.Pkgs {
+			rels = append(rels, rel)
+		}
+		sort.Strings(rels)
+		for _, rel := range rels {
+			for _, f := range u.srcFuncs(rel) {
+				for _, b := range f.Blocks {
+					for _, in := range b.Instrs {
+						if call, ok := in.(ssa.CallInstruction); ok {
+							if callee := call.Common().StaticCallee(); callee != nil {
+								u.callers[callee] = append(u.callers[callee], call)
+							}
+						}
+					}
+				}
+			}
+		}
+	}
+	return u.callers[fn]
 }
